@@ -204,6 +204,10 @@ func checkPositions(s string, res ParseResult) map[string]string {
 			ok   bool
 		}
 		pes := make([]pe, len(vs))
+		// a violation of the range/alignment clauses is reported at the innermost node only:
+		// a wrong End of a child is inherited by every ancestor that ends with it.
+		type rv struct{ sig, detail string }
+		rviol := make([][]rv, len(vs))
 		for i, v := range vs {
 			p, e, ok := safePosEnd(v.Node)
 			pes[i] = pe{p, e, ok}
@@ -213,19 +217,32 @@ func checkPositions(s string, res ParseResult) map[string]string {
 			tn := oracle.TypeName(v.Node)
 			if clean {
 				if !(0 <= p && p < e && e <= L) {
-					viol["C05/clean/range/"+tn] = fmt.Sprintf("%s at %s: Pos=%d End=%d len=%d", tn, v.Path, p, e, L)
+					rviol[i] = append(rviol[i], rv{"C05/clean/range/" + tn, fmt.Sprintf("%s at %s: Pos=%d End=%d len=%d", tn, v.Path, p, e, L)})
 					continue
 				}
 				if lexOK {
 					if !starts[p] {
-						viol["C05/clean/pos-not-token-start/"+tn] = fmt.Sprintf("%s at %s: Pos=%d is not the first byte of a token", tn, v.Path, p)
+						rviol[i] = append(rviol[i], rv{"C05/clean/pos-not-token-start/" + tn, fmt.Sprintf("%s at %s: Pos=%d is not the first byte of a token", tn, v.Path, p)})
 					}
 					if !ends[e] {
-						viol["C05/clean/end-not-token-end/"+tn] = fmt.Sprintf("%s at %s: End=%d is not one past the last byte of a token", tn, v.Path, e)
+						rviol[i] = append(rviol[i], rv{"C05/clean/end-not-token-end/" + tn, fmt.Sprintf("%s at %s: End=%d is not one past the last byte of a token", tn, v.Path, e)})
 					}
 				}
 			} else if !(0 <= p && p <= e && e <= L) {
-				viol["C05/errors/range/"+tn] = fmt.Sprintf("%s at %s: Pos=%d End=%d len=%d", tn, v.Path, p, e, L)
+				rviol[i] = append(rviol[i], rv{"C05/errors/range/" + tn, fmt.Sprintf("%s at %s: Pos=%d End=%d len=%d", tn, v.Path, p, e, L)})
+			}
+		}
+		hasBadDesc := make([]bool, len(vs))
+		for i := len(vs) - 1; i >= 0; i-- {
+			if (len(rviol[i]) > 0 || hasBadDesc[i]) && vs[i].Parent >= 0 {
+				hasBadDesc[vs[i].Parent] = true
+			}
+		}
+		for i := range vs {
+			if !hasBadDesc[i] {
+				for _, x := range rviol[i] {
+					viol[x.sig] = x.detail
+				}
 			}
 		}
 		// nesting and order
